@@ -250,7 +250,7 @@ Qed.
 
 (* ---- all C01 operations ---- *)
 Definition c01_op (o : op) : Prop :=
-  match o with OReindexed _ | OBlocked _ _ => False | _ => True end.
+  match o with OReindexed _ | OBlocked _ _ | OReindexedL _ => False | _ => True end.
 
 Lemma step_op v sz o : c01_op o -> lay_ok (lay v) sz -> dom_op o v = true ->
   step_ok v (exec_op o v) sz (spec_sz o sz) (spec_map o sz).
